@@ -22,6 +22,12 @@ def run(tier):
         sb_pipeline.apply(chk, b, ["C02"])
     except ImportError:
         pass
+    try:
+        from checks import sig_pipeline
+        g = sig_pipeline.run(tier, chk.seed)
+        sig_pipeline.apply(chk, g, ["C02"])
+    except ImportError:
+        pass
     chk.assumptions = ["SHA-256 via JDK override"]
     chk.extra["exhaustive"] = False
     return chk.finish()
